@@ -7,6 +7,7 @@ import (
 
 	ipfslog "berty.tech/go-ipfs-log"
 	orbitdb "berty.tech/go-orbit-db"
+	"berty.tech/go-orbit-db/accesscontroller"
 	"berty.tech/go-orbit-db/iface"
 	"berty.tech/go-orbit-db/stores/operation"
 )
@@ -44,6 +45,10 @@ type ClusterCfg struct {
 	CreateOpts func(i int) *orbitdb.CreateDBOptions
 	PeerOpts   []PeerOpt
 	OpenSteps  int
+	// ACL, when set, builds the access-controller parameters from the writers' identity ids
+	// (nil result = none given, i.e. creator-only default)
+	ACL      func(ids []string) accesscontroller.ManifestParams
+	ExtraIDs []string // further ids put on the write list (e.g. a colluding adversary)
 }
 
 func (k *K) NewCluster(cfg ClusterCfg) *Cluster {
@@ -75,7 +80,14 @@ func (k *K) NewCluster(cfg ClusterCfg) *Cluster {
 		ctx, cancel := OpCtx(60 * time.Second)
 		defer cancel()
 		o := c.createOpts(0)
-		o.AccessController = WriteACL(ids...)
+		ids = append(ids, cfg.ExtraIDs...)
+		if cfg.ACL != nil {
+			if acl := cfg.ACL(ids); acl != nil {
+				o.AccessController = acl
+			}
+		} else {
+			o.AccessController = WriteACL(ids...)
+		}
 		return c.Peers[0].DB.Create(ctx, cfg.Name, cfg.Type, o)
 	})
 	if !op.Done || op.Err != nil {
